@@ -1244,7 +1244,7 @@ class Evaluator:
             inner = self.iter_items(v.inner)
             if inner is None:
                 return None
-            return [Seq("tuple", [C(i + v.start), x]) for i, x in enumerate(inner)]
+            return [Seq("tuple", [C(i + v.start), x]) for i, x in enumerate(inner)][v.pos:]
         if isinstance(v, ZipV):
             inner = [self.iter_items(x) for x in v.parts]
             if any(i is None for i in inner):
@@ -1551,6 +1551,12 @@ class Evaluator:
         if name in ("all", "any") and len(args) == 1:
             return Cond((name, args[0]))
         if name == "next" and args:
+            a = args[0]
+            if isinstance(a, EnumV):
+                items = self.iter_items(a)
+                if items:
+                    a.pos += 1
+                    return items[0]
             return Opaque("next(%s)" % key(args[0]))
         if name == "chr" and len(args) == 1:
             return Template([("hole", args[0], "chr")])
@@ -1671,6 +1677,29 @@ class Evaluator:
                 return r
         if isinstance(recv, Template) and name in ("upper", "lower"):
             return Template([("hole", recv, name)])
+        if isinstance(recv, Template) and name == "startswith" and len(args) == 1 and isinstance(args[0], Const) and isinstance(args[0].v, str):
+            p0 = recv.parts[0] if recv.parts else None
+            if p0 is not None and p0[0] == "lit" and len(p0[1]) >= len(args[0].v):
+                return Const(p0[1].startswith(args[0].v))
+            if p0 is not None and p0[0] == "lit" and not args[0].v.startswith(p0[1]):
+                return FALSE
+        if isinstance(recv, Template) and name == "split" and len(args) == 1 and isinstance(args[0], Const) and isinstance(args[0].v, str) and args[0].v:
+            sep = args[0].v
+            toks = [[]]
+            for p_ in recv.parts:
+                if p_[0] == "lit":
+                    pieces = p_[1].split(sep)
+                    for i_, piece in enumerate(pieces):
+                        if i_ > 0:
+                            toks.append([])
+                        if piece:
+                            toks[-1].append(("lit", piece))
+                else:
+                    toks[-1].append(p_)
+            out = []
+            for t_ in toks:
+                out.append(self._mk_template(t_) if t_ else Const(""))
+            return Seq("list", out, ident="A:split")
         txt = "%s.%s(%s)" % (key(recv), name, ", ".join(key(a) for a in args))
         st.events.append(("call-bound", key(recv), name, [key(a) for a in args], node))
         return Opaque(txt)
@@ -2051,6 +2080,7 @@ class EnumV:
     def __init__(self, inner, start=0):
         self.inner = inner
         self.start = start
+        self.pos = 0  # items already consumed through next()
 
 
 class ZipV:
